@@ -58,6 +58,12 @@ def gen(ref, tier, extra_names):
 _LAYOUT = {}
 
 
+def _h64(text):
+    """64-bit digest for the cross-shard injectivity table (a 32-bit one collides by chance at ~10^5 paths)."""
+    import hashlib
+    return int.from_bytes(hashlib.blake2b(text.encode(), digest_size=8).digest(), "big")
+
+
 def layout_signature(pr):
     if pr.name not in _LAYOUT:
         root = pr.root()
@@ -228,7 +234,7 @@ def run_shard(sh):
                 rec.violation("untyped-sid-has-path-or-raises", "sid", [s, sh["first"]], str(p), None)
     digest = zlib.crc32("\n".join(sorted("|".join(t) for t in table)).encode())
     rec.extra = {"first": sh["first"], "index": sh["index"], "digest": digest,
-                 "table": [(c, zlib.crc32(r.encode()), zlib.crc32(u.encode()), r if len(table) < 200 else "") for c, r, u in table]}
+                 "table": [(c, _h64(r), _h64(u), r if len(table) < 200 else "") for c, r, u in table]}
     res = rec.result()
     for lst in res["violations"].values():
         for v in lst:
